@@ -188,6 +188,7 @@ YIELD_FILES = {
     "cache": ("go/appencryption/pkg/cache", ["cache.go"], "verifYield"),
     "protectedmemory": ("go/securememory/protectedmemory", ["secret.go"], "verifYield"),
     "memguard": ("go/securememory/memguard", ["secret.go"], "verifYield"),
+    "persistence": ("go/appencryption/pkg/persistence", ["memory.go"], "verifYield"),
 }
 
 YIELD_RE = re.compile(r"^(\s*)([\w.]+\.(?:Lock|RLock)\(\)|[\w.]+\.Wait\(\)|key\.increment\(\)|if c\.refs\.Add\(-1\) > 0 \{|c\.refs\.Add\(1\))\s*$")
@@ -293,7 +294,7 @@ def make_overlay(tag="ov"):
             if src in done or not os.path.exists(src):
                 continue
             put(src, instrument_yields(open(src).read(), f))
-        put(os.path.join(base, "verif_yield.go"), HOOK_YIELD % {"appencryption": "appencryption", "cache": "cache", "protectedmemory": "protectedmemory", "memguard": "memguard"}[pkg])
+        put(os.path.join(base, "verif_yield.go"), HOOK_YIELD % {"appencryption": "appencryption", "cache": "cache", "protectedmemory": "protectedmemory", "memguard": "memguard", "persistence": "persistence"}[pkg])
     put(os.path.join(APPENC, "verif_hooks.go"), HOOK_APPENC)
     put(os.path.join(APPENC, "internal/verif_clock.go"), HOOK_INTERNAL)
     if os.path.isdir(os.path.join(SECMEM, "protectedmemory")):
